@@ -130,4 +130,10 @@ RECURSIVE FirstFailFrom(_, _)
 FirstFailFrom(cl, k) == IF k > Len(cl) THEN "ok"
                         ELSE IF cl[k][2] THEN FirstFailFrom(cl, k + 1) ELSE cl[k][1]
 FirstFail(cl) == FirstFailFrom(cl, 1)
+(* every failing clause, joined by ";" (for judges whose clauses are independent) *)
+RECURSIVE AllFailsFrom(_, _, _)
+AllFailsFrom(cl, k, acc) ==
+   IF k > Len(cl) THEN (IF acc = "" THEN "ok" ELSE acc)
+   ELSE AllFailsFrom(cl, k + 1, IF cl[k][2] THEN acc ELSE IF acc = "" THEN cl[k][1] ELSE acc \o ";" \o cl[k][1])
+AllFails(cl) == AllFailsFrom(cl, 1, "")
 =============================================================================
